@@ -354,3 +354,31 @@ V('C12-discard-after-render', 'C12', L2T,
   """        return self.nodelist_to_text(node.nodelist)""", 'R12c')
 V('C12-benign', 'C12', L2T,
   "        # get environment behavior definition.\n", "        # get the environment behavior definition.\n", 'SILENT')
+
+
+# ----------------------------------------------------------------------- C18
+V('C18-revert-D14', 'C18', ND,
+  """                elif repeated_key_aggregate_action == 'first':
+                    value_nl = result_keyvals[key_s]
+""",
+  """                elif repeated_key_aggregate_action == 'first':
+                    value_nl = result_keyvals[key_s].nodelist
+""", 'R18c', 'D14: first policy stores a plain list')
+V('C18-chunk-pos-shift', 'C18', ND,
+  """                                pending_nodes.append(
+                                    chars_to_node(p, n, prev_sep_end, len(n.chars))
+                                )""",
+  """                                pending_nodes.append(
+                                    chars_to_node(p, n, prev_sep_end - 1, len(n.chars))
+                                )""", 'R18a')
+V('C18-part-end-at-sep-end', 'C18', ND,
+  "                                flush_nodes(thenodes, pos_end=n.pos+next_sep_idx)",
+  "                                flush_nodes(thenodes, pos_end=n.pos+next_sep_end)", 'R18a')
+V('C18-eq-split-unbounded', 'C18', ND,
+  "            eq_sep_parts = part.split_at_chars(eq_sep_chars, max_split=1)",
+  "            eq_sep_parts = part.split_at_chars(eq_sep_chars, max_split=2)", 'R18f')
+V('C18-append-to-tree', 'C18', ND,
+  "            pending_nodes.append( n )\n",
+  "            pending_nodes.append( n )\n            if keep_empty and n.isNodeType(LatexGroupNode): n.nodelist.nodelist.append(None)\n", 'R18d')
+V('C18-benign', 'C18', ND,
+  "        # untested code !\n", "        # (code is covered by tests now)\n", 'SILENT')
